@@ -6,7 +6,7 @@ PROP = "C09"
 LEVEL = "exploration"
 SHARDS = {"quick": 8, "thorough": 16}
 TIMEOUT = {"quick": 900, "thorough": 7200}
-REQUIRED = {"pubkey": 1500, "wif_roundtrip": 6000, "reject_scalar": 300, "reject_sec": 600, "probe.PrivateKey.wif": 1000}
+REQUIRED = {"pubkey": 1500, "wif_roundtrip": 6000, "reject_scalar": 300, "reject_sec": 600}
 ANCHORS = ['keys:PrivateKey.__init__', 'keys:PrivateKey.wif', 'keys:PrivateKey.from_wif', 'keys:PublicKey.parse', 'keys:PublicKey.sec']
 RULE = ("scalars from boundary classes (1, 2, n-1, n-2, 2^k, 2^k-1, 1..31 leading zero bytes, near n, random) x 4 WIF flavours "
         "x both SEC forms x 3 constructors (bytes, int, from_int/parse); rejection corpora: 0, n, n+1, 2^256-1, 2^256, "
@@ -167,8 +167,8 @@ def install_probes(ctx):
         ctx.judge("probe.PrivateKey.__init__", ok, {"k": k}, "k in [1,n-1] and K = k*G", self.K.sec(), cls="probe",
                   mech="C09.probe.init")
 
-    probes.observe_method(inst, keys.PrivateKey, "wif", on_wif)
-    probes.observe_method(inst, keys.PrivateKey, "__init__", on_init)
+    probes.try_install(ctx, "observe PrivateKey.wif", probes.observe_method, inst, keys.PrivateKey, "wif", on_wif)
+    probes.try_install(ctx, "observe PrivateKey.__init__", probes.observe_method, inst, keys.PrivateKey, "__init__", on_init)
     return inst
 
 
